@@ -66,21 +66,24 @@ Proof.
   destruct (lead2 m) eqn:E; [|discriminate]. inversion H; subst. exact E.
 Qed.
 
-Lemma case_of_In : forall r m a, In (m, a) (case_of r) -> a = if lead2 m then CReturn else CAlias m.
+Lemma case_of_In : forall r m a, In (m, a) (case_of r) ->
+  a = if lead2 m then CReturn else if is_error_code m then CAlias m else CBase.
 Proof.
   intros r m a H. unfold case_of in H. destruct (r_code r) as [k| |s]; simpl in H; try contradiction.
   destruct H as [H|[]]. inversion H; subst. reflexivity.
 Qed.
 
 Lemma cases_In : forall o m a, In (m, a) (cases o) ->
-  (a = CReturn /\ lead2 m = true) \/ (a = CAlias m /\ lead2 m = false).
+  (a = CReturn /\ lead2 m = true)
+  \/ (a = CAlias m /\ lead2 m = false /\ is_error_code m = true)
+  \/ (a = CBase /\ lead2 m = false /\ is_error_code m = false).
 Proof.
   intros o m a H. unfold cases in H. apply in_app_or in H. destruct H as [H|H].
   - destruct (processed_primary o) as [[p n]|] eqn:E; simpl in H; [|contradiction].
     destruct H as [H|[]]. inversion H; subst. left. split; [reflexivity|].
     eapply processed_primary_lead2; eauto.
   - apply in_flat_map in H. destruct H as (r & _ & H). apply case_of_In in H.
-    destruct (lead2 m); [left|right]; auto.
+    destruct (lead2 m); [left; auto|]. destruct (is_error_code m); [right; left | right; right]; auto.
 Qed.
 
 Lemma find_case_Some : forall st cs m a, find_case st cs = Some (m, a) -> m = st /\ In (m, a) cs.
@@ -90,31 +93,19 @@ Proof.
 Qed.
 
 (* ---------- class facts ---------- *)
-Lemma sub_transport_http : sub (Named transport_raises) HTTPError.
-Proof. vm_compute. reflexivity. Qed.
-Lemma sub_fallback_http : sub (Named handler_fallback_raises) HTTPError.
-Proof. vm_compute. reflexivity. Qed.
-Lemma transport_not_client : subclass_of (Named transport_raises) ClientError = false.
-Proof. vm_compute. reflexivity. Qed.
-Lemma transport_not_server : subclass_of (Named transport_raises) ServerError = false.
-Proof. vm_compute. reflexivity. Qed.
-Lemma fallback_not_client : subclass_of (Named handler_fallback_raises) ClientError = false.
-Proof. vm_compute. reflexivity. Qed.
-Lemma fallback_not_server : subclass_of (Named handler_fallback_raises) ServerError = false.
-Proof. vm_compute. reflexivity. Qed.
-
 Lemma client_range : forall n, 400 <= n < 500 -> is_client_error n = true.
 Proof. intros n H. unfold is_client_error, in_range, client_lo, client_hi. lia. Qed.
 Lemma server_range : forall n, 500 <= n < 600 -> is_server_error n = true /\ is_client_error n = false.
 Proof.
   intros n H. unfold is_server_error, is_client_error, in_range, client_lo, client_hi, server_lo, server_hi. lia.
 Qed.
-Lemma alias_exists_range : forall n, alias_exists n = true -> 400 <= n < 600.
+Lemma error_code_range : forall n, is_error_code n = true -> 400 <= n < 600.
+Proof. intros n H. unfold is_error_code, in_range, error_lo, error_hi in H. lia. Qed.
+Lemma error_code_alias_exists : forall n, is_error_code n = true -> alias_exists n = true.
 Proof.
-  intros n H. unfold alias_exists, is_error_code, in_range, error_lo, error_hi in H. lia.
+  intros n H. unfold alias_exists. rewrite H. pose proof (error_code_range n H) as R.
+  unfold is_client_error, is_server_error, in_range, client_lo, client_hi, server_lo, server_hi. lia.
 Qed.
-Lemma err_range_iff : forall n, err_range n = true <-> 400 <= n < 600.
-Proof. intro n. unfold err_range, in_range. lia. Qed.
 
 Lemma alias_client : forall n, is_client_error n = true ->
   sub (Alias n) ClientError /\ sub (Alias n) HTTPError.
@@ -131,54 +122,71 @@ Proof.
     vm_compute; reflexivity.
 Qed.
 
+(* the class a range table picks is right for the status: the heart of the F06a / F06b fixes *)
+Definition class_ok (c : cls) (st : N) : Prop :=
+  sub c HTTPError /\ (400 <= st < 500 -> sub c ClientError) /\ (500 <= st < 600 -> sub c ServerError).
+
+Lemma transport_class_ok : forall st, class_ok (Named (range_class transport_ranges transport_default st)) st.
+Proof.
+  intro st. unfold transport_ranges, transport_default. cbn [range_class]. unfold in_range.
+  destruct ((400 <=? st) && (st <? 500)) eqn:E1; [|destruct ((500 <=? st) && (st <? 600)) eqn:E2];
+    (split; [vm_compute; reflexivity | split; intro H; try lia; vm_compute; reflexivity]).
+Qed.
+Lemma handler_class_ok : forall st, class_ok (Named (range_class handler_ranges handler_fallback_raises st)) st.
+Proof.
+  intro st. unfold handler_ranges, handler_fallback_raises. cbn [range_class]. unfold in_range.
+  destruct ((400 <=? st) && (st <? 500)) eqn:E1; [|destruct ((500 <=? st) && (st <? 600)) eqn:E2];
+    (split; [vm_compute; reflexivity | split; intro H; try lia; vm_compute; reflexivity]).
+Qed.
+Lemma declared_other_class_ok : forall st, is_error_code st = false ->
+  class_ok (Named handler_declared_other_raises) st.
+Proof.
+  intros st H. unfold is_error_code, in_range, error_lo, error_hi in H.
+  split; [vm_compute; reflexivity | split; intro; lia].
+Qed.
+
+(* ---------- F06d fixed: the alias import can no longer fail ---------- *)
+Lemma op_imports_always : forall o, op_imports_ok o = true.
+Proof.
+  intro o. unfold op_imports_ok. apply forallb_forall. intros [m a] Hin. cbn [snd].
+  destruct (cases_In _ _ _ Hin) as [[-> _]|[[-> [_ He]]|[-> _]]]; try reflexivity.
+  apply error_code_alias_exists. exact He.
+Qed.
+Lemma imports_always : forall s, imports_ok s = true.
+Proof. intro s. unfold imports_ok. apply forallb_forall. intros o _. apply op_imports_always. Qed.
+
 (* ---------- what the handler does with a status outside 200-299 ---------- *)
-Lemma op_imports_alias : forall o m k, op_imports_ok o = true -> In (m, CAlias k) (cases o) -> alias_exists k = true.
+Lemma dispatch_non2xx : forall o st, 100 <= st <= 599 -> ~ (200 <= st < 300) ->
+  (dispatch o st = ARaiseAlias st /\ is_error_code st = true)
+  \/ (dispatch o st = ARaiseDeclaredOther /\ is_error_code st = false)
+  \/ dispatch o st = ARaiseFallback.
 Proof.
-  intros o m k H Hin. unfold op_imports_ok in H. rewrite forallb_forall in H.
-  specialize (H _ Hin). exact H.
-Qed.
-
-Lemma dispatch_cases : forall o st, 100 <= st <= 599 -> ~ (200 <= st < 300) ->
-  (declared_case o st = true /\ dispatch o st = ARaiseAlias st /\ In (st, CAlias st) (cases o))
-  \/ (declared_case o st = false /\ dispatch o st = fallback o).
-Proof.
-  intros o st Hr Hn. unfold declared_case, dispatch.
+  intros o st Hr Hn. unfold dispatch.
   destruct (find_case st (cases o)) as [[m a]|] eqn:E.
-  - left. apply find_case_Some in E. destruct E as [-> Hin].
-    destruct (cases_In _ _ _ Hin) as [[-> Hl]|[-> Hl]].
+  - apply find_case_Some in E. destruct E as [-> Hin].
+    destruct (cases_In _ _ _ Hin) as [[-> Hl]|[[-> [_ He]]|[-> [_ He]]]].
     + exfalso. apply Hn. apply lead2_range; assumption.
-    + auto.
-  - right. auto.
+    + left. auto.
+    + right. left. auto.
+  - right. right.
+    replace (in_range wildcard_lo wildcard_hi st) with false
+      by (unfold in_range, wildcard_lo, wildcard_hi; lia).
+    rewrite andb_false_r. unfold fallback.
+    replace (in_range default_success_lo default_success_hi st) with false
+      by (unfold in_range, default_success_lo, default_success_hi; lia).
+    rewrite andb_false_r. reflexivity.
 Qed.
 
-Lemma fallback_cases : forall o,
-  (fallback o = AReturn /\ fallback_returns o = true) \/ (fallback o = ARaiseFallback /\ fallback_returns o = false).
+(* ---------- C06_full ---------- *)
+Theorem full : forall k s o st, status_ok st -> C06_spec (call k s o st) st.
 Proof.
-  intro o. unfold fallback_returns. unfold fallback.
-  destruct (first_default o) as [d|]; [destruct (r_content d && negb (ret_none o))|]; auto.
-Qed.
-
-(* ---------- C06_partial: the full conclusion under the executable guard ---------- *)
-Theorem partial : forall k s o st, In o s -> status_ok st -> guard k s o st = true -> C06_spec (call k s o st) st.
-Proof.
-  intros k s o st Hin [Hr Hn] G. unfold guard in G.
-  apply andb_true_iff in G. destruct G as [G Gd]. apply andb_true_iff in G. destruct G as [G Gc].
-  apply andb_true_iff in G. destruct G as [Ga Gb].
-  unfold guard_F06d in Gd. unfold call. rewrite Gd. cbn [negb].
-  assert (Ho : op_imports_ok o = true).
-  { unfold imports_ok in Gd. rewrite forallb_forall in Gd. apply Gd. exact Hin. }
+  intros k s o st [Hr Hn]. unfold call. rewrite imports_always. cbn [negb].
   destruct k; cbn [transport].
-  - (* Bundled: the transport raises before the handler *)
-    replace ((st <? transport_lo) || (transport_hi <=? st)) with true
+  - replace ((st <? transport_lo) || (transport_hi <=? st)) with true
       by (unfold transport_lo, transport_hi; lia).
-    exists (Named transport_raises). split; [reflexivity|]. split; [exact sub_transport_http|].
-    unfold guard_F06a in Ga. cbn [is_bundled andb] in Ga.
-    assert (He : err_range st = false) by (destruct (err_range st); [discriminate | reflexivity]).
-    split; intro Hs; exfalso; assert (err_range st = true) by (apply err_range_iff; lia); congruence.
-  - (* Custom: the generated match decides *)
-    unfold guard_F06b, guard_F06c in *. cbn [is_bundled negb andb] in Gb, Gc.
-    destruct (dispatch_cases o st Hr Hn) as [(Hd & -> & Hc)|(Hd & ->)].
-    + pose proof (op_imports_alias _ _ _ Ho Hc) as Ha. pose proof (alias_exists_range _ Ha) as Hrange.
+    eexists. split; [reflexivity|]. apply transport_class_ok.
+  - destruct (dispatch_non2xx o st Hr Hn) as [[-> He]|[[-> He]| ->]].
+    + pose proof (error_code_range _ He) as Hrange.
       exists (Alias st). split; [reflexivity|].
       destruct (N.ltb_spec st 500) as [Hlt|Hge].
       * destruct (alias_client st (client_range st ltac:(lia))) as [Hc1 Hc2].
@@ -186,119 +194,30 @@ Proof.
       * destruct (server_range st ltac:(lia)) as [Hs1 Hs0].
         destruct (alias_server st Hs0 Hs1) as [Hc1 Hc2].
         split; [exact Hc2|]. split; intro; [lia | exact Hc1].
-    + rewrite Hd in Gb, Gc. cbn [negb andb] in Gb, Gc.
-      destruct (fallback_cases o) as [[-> Hf]|[-> Hf]]; rewrite Hf in *.
-      * discriminate.
-      * exists (Named handler_fallback_raises). split; [reflexivity|]. split; [exact sub_fallback_http|].
-        rewrite andb_true_r in Gb.
-        assert (He : err_range st = false) by (destruct (err_range st); [discriminate | reflexivity]).
-        split; intro Hs; exfalso; assert (err_range st = true) by (apply err_range_iff; lia); congruence.
+    + eexists. split; [reflexivity|]. apply declared_other_class_ok. exact He.
+    + eexists. split; [reflexivity|]. apply handler_class_ok.
 Qed.
 
-(* ---------- and the guard is exact: outside it the conclusion is false ---------- *)
-Theorem guard_exact : forall k s o st, status_ok st -> C06_spec (call k s o st) st -> guard k s o st = true.
-Proof.
-  intros k s o st [Hr Hn] (c & Hcall & Hh & Hc & Hs). unfold call in Hcall.
-  destruct (imports_ok s) eqn:Gd; cbn [negb] in Hcall; [|discriminate].
-  unfold guard, guard_F06d. rewrite Gd, andb_true_r.
-  assert (Hnot : forall c', c = c' -> subclass_of c' ClientError = false -> subclass_of c' ServerError = false ->
-                            err_range st = false).
-  { intros c' -> H1 H2. destruct (err_range st) eqn:E; [|reflexivity]. apply err_range_iff in E.
-    destruct (N.ltb_spec st 500); [specialize (Hc ltac:(lia)) | specialize (Hs ltac:(lia))];
-      unfold sub in *; congruence. }
-  destruct k; cbn [transport] in Hcall.
-  - replace ((st <? transport_lo) || (transport_hi <=? st)) with true in Hcall
-      by (unfold transport_lo, transport_hi; lia).
-    inversion Hcall; subst c.
-    unfold guard_F06a, guard_F06b, guard_F06c. cbn [is_bundled negb andb].
-    rewrite (Hnot _ eq_refl transport_not_client transport_not_server). reflexivity.
-  - unfold guard_F06a, guard_F06b, guard_F06c. cbn [is_bundled negb andb].
-    destruct (dispatch_cases o st Hr Hn) as [(Hd & Hdisp & _)|(Hd & Hdisp)]; rewrite Hdisp in Hcall; rewrite Hd.
-    + rewrite !andb_false_r. reflexivity.
-    + cbn [negb]. rewrite !andb_true_r.
-      destruct (fallback_cases o) as [[Hf Hfr]|[Hf Hfr]]; rewrite Hf in Hcall; [discriminate|].
-      rewrite Hfr. cbn [negb]. rewrite andb_true_r. inversion Hcall; subst c.
-      rewrite (Hnot _ eq_refl fallback_not_client fallback_not_server). reflexivity.
-Qed.
+(* ---------- regression: the witnesses of the former findings F06a-d now meet the property ---------- *)
+Example fixed_F06a : call Bundled [op_F06a] op_F06a 404 = Raised ClientError 404 true
+  /\ call Bundled [op_F06a] op_F06a 503 = Raised ServerError 503 true
+  /\ call Bundled [op_F06a] op_F06a 302 = Raised HTTPError 302 true.
+Proof. repeat split; vm_compute; reflexivity. Qed.
+Example fixed_F06b : call Custom [op_F06b] op_F06b 404 = Raised ClientError 404 true
+  /\ call Custom [op_F06b] op_F06b 500 = Raised ServerError 500 true.
+Proof. repeat split; vm_compute; reflexivity. Qed.
+Example fixed_F06c : call Custom [op_F06c] op_F06c 500 = Raised ServerError 500 true
+  /\ call Custom [op_F06c] op_F06c 201 = Returned.
+Proof. repeat split; vm_compute; reflexivity. Qed.
+Example fixed_F06d : call Custom [op_F06d] op_F06d 302 = Raised HTTPError 302 true
+  /\ call Custom [op_F06d] op_F06d 404 = Raised ClientError 404 true
+  /\ call Custom [op_F06d] op_F06d 200 = Returned.
+Proof. repeat split; vm_compute; reflexivity. Qed.
 
-(* ---------- what holds for EVERY transport and status once F06c/F06d are excluded ---------- *)
-Theorem weak : forall k s o st, In o s -> status_ok st ->
-  guard_F06c k o st = true -> guard_F06d s = true -> C06_weak_spec (call k s o st) st.
-Proof.
-  intros k s o st Hin [Hr Hn] Gc Gd. unfold guard_F06d in Gd. unfold call. rewrite Gd. cbn [negb].
-  assert (Ho : op_imports_ok o = true).
-  { unfold imports_ok in Gd. rewrite forallb_forall in Gd. apply Gd. exact Hin. }
-  destruct k; cbn [transport].
-  - replace ((st <? transport_lo) || (transport_hi <=? st)) with true
-      by (unfold transport_lo, transport_hi; lia).
-    exists (Named transport_raises). split; [reflexivity | exact sub_transport_http].
-  - unfold guard_F06c in Gc. cbn [is_bundled negb andb] in Gc.
-    destruct (dispatch_cases o st Hr Hn) as [(Hd & -> & Hc)|(Hd & ->)].
-    + pose proof (alias_exists_range _ (op_imports_alias _ _ _ Ho Hc)) as Hrange.
-      exists (Alias st). split; [reflexivity|].
-      destruct (N.ltb_spec st 500) as [Hlt|Hge].
-      * apply (alias_client st (client_range st ltac:(lia))).
-      * destruct (server_range st ltac:(lia)) as [Hs1 Hs0]. apply (alias_server st Hs0 Hs1).
-    + rewrite Hd in Gc. cbn [negb andb] in Gc.
-      destruct (fallback_cases o) as [[-> Hf]|[-> Hf]]; rewrite Hf in *; [discriminate|].
-      exists (Named handler_fallback_raises). split; [reflexivity | exact sub_fallback_http].
-Qed.
-
-(* ---------- the unguarded statement is false: one witness per finding ---------- *)
-Theorem refuted_F06a :
-  status_ok 404 /\ guard_F06a Bundled 404 = false /\ guard_F06b Bundled op_F06a 404 = true
-  /\ guard_F06c Bundled op_F06a 404 = true /\ guard_F06d [op_F06a] = true
-  /\ call Bundled [op_F06a] op_F06a 404 = Raised HTTPError 404 true
-  /\ ~ C06_spec (call Bundled [op_F06a] op_F06a 404) 404.
-Proof.
-  split; [unfold status_ok; lia|]. repeat (split; [vm_compute; reflexivity|]).
-  intro H. apply guard_exact in H; [|unfold status_ok; lia]. vm_compute in H. discriminate.
-Qed.
-
-Theorem refuted_F06b :
-  status_ok 404 /\ guard_F06a Custom 404 = true /\ guard_F06b Custom op_F06b 404 = false
-  /\ guard_F06c Custom op_F06b 404 = true /\ guard_F06d [op_F06b] = true
-  /\ call Custom [op_F06b] op_F06b 404 = Raised HTTPError 404 true
-  /\ ~ C06_spec (call Custom [op_F06b] op_F06b 404) 404.
-Proof.
-  split; [unfold status_ok; lia|]. repeat (split; [vm_compute; reflexivity|]).
-  intro H. apply guard_exact in H; [|unfold status_ok; lia]. vm_compute in H. discriminate.
-Qed.
-
-Theorem refuted_F06c :
-  status_ok 500 /\ guard_F06a Custom 500 = true /\ guard_F06b Custom op_F06c 500 = true
-  /\ guard_F06c Custom op_F06c 500 = false /\ guard_F06d [op_F06c] = true
-  /\ call Custom [op_F06c] op_F06c 500 = Returned
-  /\ ~ C06_weak_spec (call Custom [op_F06c] op_F06c 500) 500.
-Proof.
-  split; [unfold status_ok; lia|]. repeat (split; [vm_compute; reflexivity|]).
-  intros (c & H & _). vm_compute in H. discriminate.
-Qed.
-
-Theorem refuted_F06d :
-  status_ok 302 /\ guard_F06a Custom 302 = true /\ guard_F06b Custom op_F06d 302 = true
-  /\ guard_F06c Custom op_F06d 302 = true /\ guard_F06d [op_F06d] = false
-  /\ (forall k st, call k [op_F06d] op_F06d st = ImportFails)
-  /\ ~ C06_weak_spec (call Custom [op_F06d] op_F06d 302) 302.
-Proof.
-  split; [unfold status_ok; lia|]. repeat (split; [vm_compute; reflexivity|]).
-  intros (c & H & _). vm_compute in H. discriminate.
-Qed.
-
-(* F06a is not one input but a whole class: EVERY 4xx/5xx through the bundled transport, whatever is declared *)
-Theorem F06a_all : forall s o st, 400 <= st < 600 -> ~ C06_spec (call Bundled s o st) st.
-Proof.
-  intros s o st Hr H. apply guard_exact in H; [|unfold status_ok; lia].
-  unfold guard, guard_F06a in H. cbn [is_bundled andb] in H.
-  assert (E : err_range st = true) by (apply err_range_iff; lia). rewrite E in H. discriminate.
-Qed.
-
-(* ---------- non-vacuity ---------- *)
+(* the per-status aliases still fire where declared (non-vacuity of the alias branch) *)
 Definition op_ok : op := [R (Num 200) true; R (Num 404) true; R (Num 503) false; R Default false].
-Example guard_nonvacuous :
-  guard Custom [op_ok] op_ok 404 = true /\ call Custom [op_ok] op_ok 404 = Raised (Alias 404) 404 true
-  /\ guard Custom [op_ok] op_ok 503 = true /\ call Custom [op_ok] op_ok 503 = Raised (Alias 503) 503 true
-  /\ guard Custom [op_ok] op_ok 302 = true /\ guard Bundled [op_ok] op_ok 302 = true.
+Example alias_branch_live :
+  call Custom [op_ok] op_ok 404 = Raised (Alias 404) 404 true /\ call Custom [op_ok] op_ok 503 = Raised (Alias 503) 503 true.
 Proof. repeat split; vm_compute; reflexivity. Qed.
 
 (* ---------- the alias table (finite, regenerated from core/http_status_codes.py) ---------- *)
